@@ -87,21 +87,39 @@ def run(ck, F):
 
     def cb(e, env, ctx):
         if e.get("k") == "MethodCall" and e["name"] == "insert" and "namespace_lookup" in Hh.describe(e["recv"]):
-            ins.append((Hh.sp(e), og.nf_str(W.NF.nf(e["args"][0], env)), og.nf_str(W.NF.nf(e["args"][1], env)), ctx))
+            ins.append((Hh.sp(e), og.nf_str(W.NF.nf(e["args"][0], env)), CE.expand(W.NF.nf(e["args"][1], env)), ctx))
     W.walk_fn("model::doc::RustDocument::add_namespace_reference", cb)
-    good = 0
+
+    def leaves(v):
+        """the alternatives a value can be (through if / match / tuple projections)"""
+        if isinstance(v, tuple) and v[0] == "ifelse":
+            return leaves(v[2]) + leaves(v[3])
+        if isinstance(v, tuple) and v[0] == "match":
+            return [x for _, arm in v[2] for x in leaves(arm)]
+        if isinstance(v, tuple) and v[0] == "field" and isinstance(v[1], tuple) and v[1][0] in ("ifelse", "match") and str(v[2]).isdigit():
+            return [x for l in leaves(v[1]) for x in leaves(og.nf_simplify(("field", l, v[2])))]
+        return [v]
+    kinds = set()
+    n_bind = 0
     for (site, k, v, ctx) in ins:
         if k != "original_abbreviation":
             ck.violation("R2", "binding-key", site, f"prefix table key is {k}, not the declared prefix")
             continue
-        reuse = "find(self.namespaces" in v and "namespace Eq url" in v.replace("(", "").replace(")", "") or "Some⟨" in v and "find" in v
-        fresh = "struct:model::Namespace" in v or "Namespace" in v and "url" in v
-        if reuse or fresh:
-            good += 1
-            ck.ok("R2", f"binding#{good}", site, f"prefix -> {'existing registry entry with the same URI' if reuse else 'new Namespace for this URI'}")
-        else:
-            ck.violation("R2", "binding-value", site, f"prefix is bound to {v[:120]}")
-    ck.floor("R2", "prefix table insertions", len(ins), 2)
+        for leaf in leaves(v):
+            ls = og.nf_str(leaf)
+            flat = ls.replace("(", "").replace(")", "")
+            reuse = _registry_entry_for(leaf, "url")
+            fresh = _builds_namespace_for(leaf, "url")
+            n_bind += 1
+            if reuse or fresh:
+                kinds.add("reuse" if reuse else "fresh")
+                ck.ok("R2", f"binding:{'reuse' if reuse else 'fresh'}", site, f"prefix -> {'existing registry entry with the same URI' if reuse else 'new Namespace for this URI'}")
+            else:
+                ck.violation("R2", "binding-value", site, f"prefix is bound to {ls[:120]}")
+    if ins and kinds != {"reuse", "fresh"}:
+        ck.violation("R2", "binding-alternatives", ins[0][0], f"the prefix table is only ever filled with {sorted(kinds)} entries: a declared prefix must be bound to the "
+                     f"registry's entry for its URI when there is one and to a new Namespace otherwise")
+    ck.floor("R2", "prefix table insertions", len(ins), 1)
     # a document's prefix table holds only its own declarations (plus, for the importer, what `extend` merges in afterwards)
     n_w = 0
     for (fn, site, how, bb, node) in scans.field_writers(F.lib, "namespace_lookup"):
@@ -305,3 +323,40 @@ def _is_call_on(nf, method, recv):
 def _same_call(nf, wrapper, method, recv):
     """nf is the Some-payload of `recv.method()`"""
     return isinstance(nf, tuple) and nf[0] == "payload" and nf[1] == "Some" and _is_call_on(nf[2], method, recv)
+
+
+def _builds_namespace_for(nf, param):
+    """nf contains a `Namespace { namespace: <param..>, .. }` literal"""
+    if not isinstance(nf, tuple):
+        return False
+    if nf[0] == "call" and isinstance(nf[1], str) and nf[1].startswith("struct:") and nf[1].endswith("model::Namespace"):
+        for fi in nf[2]:
+            if isinstance(fi, tuple) and fi[0] == "field_init" and fi[1] == "namespace":
+                return any(r == ("param", param) for r in og.nf_roots(fi[2]))
+    return any(_builds_namespace_for(x, param) for x in nf if isinstance(x, tuple))
+
+
+def _registry_entry_for(nf, param):
+    """nf is (a clone of) the element found in self.namespaces by a predicate that compares the element's `namespace` with <param>"""
+    n = nf
+    for _ in range(6):
+        if isinstance(n, tuple) and n[0] == "payload":
+            n = n[2]
+        elif isinstance(n, tuple) and n[0] == "call" and str(n[1]).rsplit("::", 1)[-1] in ("clone", "cloned", "as_ref", "to_owned") and len(n[2]) == 1:
+            n = n[2][0]
+        else:
+            break
+    if not (isinstance(n, tuple) and n[0] == "call" and n[1] == "iter::find" and len(n[2]) == 2):
+        return False
+    src, pred = n[2]
+    if og.nf_str(src) != "self.namespaces":
+        return False
+    el = ("elem", src)
+    while isinstance(pred, tuple) and pred[0] == "not":
+        return False
+    if not (isinstance(pred, tuple) and pred[0] == "binop" and pred[1] == "Eq"):
+        return False
+    sides = [pred[2], pred[3]]
+    on_elem = [x for x in sides if x == ("field", el, "namespace")]
+    on_param = [x for x in sides if any(r == ("param", param) for r in og.nf_roots(x)) and el not in [x]]
+    return len(on_elem) == 1 and len(on_param) >= 1
